@@ -643,6 +643,12 @@ func (c *specCtx) call(x *ECall) sval {
 		return sval{term: "(" + fx.implPred(t) + " " + v.term + ")", typ: tBool, sort: "Bool"}
 	case "noneset":
 		return sval{term: "((as const (Array Int Bool)) false)", sort: "(Array Int Bool)"}
+	case "iszero":
+		v := c.eval(x.Args[0])
+		if v.typ == nil {
+			panic(specErr("iszero of untyped value"))
+		}
+		return sval{term: "(= " + v.term + " " + fx.d.Zero(v.typ) + ")", typ: tBool, sort: "Bool"}
 	case "zero":
 		t := c.typeExpr(x.Args[0])
 		return sval{term: fx.d.Zero(t), typ: t, sort: fx.d.SortOf(t)}
